@@ -29,8 +29,8 @@ ASSUMPTIONS = [
 ]
 
 ANGLES = {"angle+": 0.9, "angle-": -1.3, "angle++": 4.0, "angle--": -4.3}  # two reflex sector angles, one of either sign
-KINDS = ["arc", "origin", "angle+", "angle-", "angle++", "angle--", "spline", "polyline", "project1", "project2", "oncurve", "line", "collinear_arc", "zero_length"]
-DIRECTED = {"angle+", "angle-", "angle++", "angle--", "spline", "polyline", "oncurve"}
+KINDS = ["arc", "origin", "angle+", "angle-", "angle++", "angle--", "spline", "polyline", "project1", "project2", "oncurve", "oncurve_ends", "line", "collinear_arc", "zero_length"]
+DIRECTED = {"angle+", "angle-", "angle++", "angle--", "spline", "polyline", "oncurve", "oncurve_ends"}
 OP_USAGES = ["op_invert", "op_mirror"]  # the finished operation inverted / mirrored about a skew plane off the origin
 USAGES = ["given", "invert", "shift1", "shift2", "shift3", "reorient0", "reorient1", "reorient2", "reorient3"]
 
@@ -261,6 +261,11 @@ def user_curve(kind, A, B, frame, flip=False):
         pts = [A - chord * 0.3 - w * 0.1 * L, A, A + chord * 0.15 + w * L * 0.2, A + chord * 0.6 + w * L * 0.25, B, B + chord * 0.3 - w * 0.1 * L]
         ref["curve_points"] = pts
         return (lambda: cb.OnCurve(cb.LinearInterpolatedCurve([list(p) for p in pts]), n_points=7, representation="polyLine")), ref
+    if kind == "oncurve_ends":
+        # the curve starts exactly at A and ends exactly at B (parameters 0 and 1 of the curve are the edge's vertices)
+        pts = [A, A + chord * 0.15 + w * L * 0.2, A + chord * 0.6 + w * L * 0.25, B]
+        ref["curve_points"] = pts
+        return (lambda: cb.OnCurve(cb.LinearInterpolatedCurve([list(p) for p in pts]), n_points=7, representation="polyLine")), ref
     if kind in ("line", "zero_length"):
         return (lambda: _Line() if kind == "line" else cb.Spline([list(A + w * 0.1), list(A + w * 0.2)])), ref
     raise AssertionError(kind)
@@ -458,7 +463,7 @@ def run_case(case):
     elif kind in ("project1", "project2"):
         if e["kind"] != "project" or e["labels"] != ref["labels"]:
             bad("project-labels", f"{e}")
-    elif kind == "oncurve":
+    elif kind in ("oncurve", "oncurve_ends"):
         if e["kind"] != "polyLine":
             bad("wrong-kind", e["kind"])
         else:
